@@ -107,8 +107,15 @@ MergedOK(DS, uno, T, S, post) ==
 \* Insert / Update failure conditions
 
 \* a container, list or list entry S addresses directly below `at' already exists
+EmptyList(T, c) == c \in DOMAIN T.ord /\ T.ord[c] = << >>
+
 InsertConflict(T, at, S) ==
-    \E c \in S.cont : c # at /\ FrontOf(c) = at /\ c \in T.cont
+    \E c \in S.cont : c # at /\ FrontOf(c) = at /\ c \in T.cont /\ ~EmptyList(T, c)
+
+\* whether a list without entries still "exists" is store specific (DESIGN 4.5): inserting
+\* it again may or may not conflict
+InsertMayConflict(T, at, S) ==
+    \E c \in S.cont : c # at /\ FrontOf(c) = at /\ c \in T.cont /\ EmptyList(T, c)
 
 \* some container, list or list entry S addresses does not exist
 UpdateMissing(T, at, S) ==
@@ -136,6 +143,8 @@ EditCheck(DS, uno, T, op, res, post) ==
              ELSE IF res.err # want THEN "wrong-error-class"
              ELSE IF ~FailedOK(DS, T, op.at, post) THEN "failed-edit-damaged-target"
              ELSE "ok")
+       ELSE IF ~res.ok /\ op.k = "insert" /\ res.err = "conflict" /\ InsertMayConflict(T, op.at, S) THEN
+            (IF FailedOK(DS, T, op.at, post) THEN "ok" ELSE "failed-edit-damaged-target")
        ELSE IF ~res.ok THEN "valid-edit-rejected"
        ELSE IF MergedOK(DS, uno, T, S, post) THEN "ok"
        ELSE IF post.cont # MergeCore(DS, T, S).cont THEN
